@@ -11,8 +11,6 @@ import (
 	"io"
 	"net/http"
 	"net/http/httptest"
-	"os"
-	"sort"
 	"strings"
 	"sync"
 	"testing"
@@ -83,7 +81,7 @@ func (h *ngSSE) ServeHTTP(w http.ResponseWriter, req *http.Request) {
 
 type ngCell struct {
 	req    string // "default" or s<hex>
-	kind   string // mem pipe sse stateful stateless
+	kind   string // mem pipe sse stateful stateless statefulnoid (stateful, the server assigns no session IDs)
 	subset string // "none" or m<5 bits over supportedProtocolVersions>
 	json   bool
 	store  bool
@@ -135,7 +133,12 @@ func ngRun(c ngCell) (obs string, tags []string) {
 			tags = append(tags, "panic")
 		}
 	}()
-	srv := NewServer(&Implementation{Name: "verif", Version: "1"}, nil)
+	var sopts *ServerOptions
+	if c.kind == "statefulnoid" {
+		// a stateful endpoint whose server hands out no session IDs (the handler's "ephemeral session" branch)
+		sopts = &ServerOptions{GetSessionID: func() string { return "" }}
+	}
+	srv := NewServer(&Implementation{Name: "verif", Version: "1"}, sopts)
 	srv.AddTool(&Tool{Name: "echo", InputSchema: map[string]any{"type": "object"}},
 		func(context.Context, *CallToolRequest) (*CallToolResult, error) {
 			return &CallToolResult{Content: []Content{&TextContent{Text: "pong"}}}, nil
@@ -186,7 +189,7 @@ func ngRun(c ngCell) (obs string, tags []string) {
 		hc := &http.Client{Transport: &http.Transport{}}
 		cleanup = append(cleanup, hc.CloseIdleConnections)
 		ct = &SSEClientTransport{Endpoint: ts.URL, HTTPClient: hc}
-	case "stateful", "stateless":
+	case "stateful", "stateless", "statefulnoid":
 		opts := &StreamableHTTPOptions{Stateless: c.kind == "stateless", JSONResponse: c.json}
 		if c.store {
 			opts.EventStore = NewMemoryEventStore(nil)
@@ -275,7 +278,7 @@ func ngCells() []ngCell {
 		for _, s := range ngSubsets() {
 			cells = append(cells, ngCell{req: req, kind: "sse", subset: s})
 		}
-		for _, kind := range []string{"stateful", "stateless"} {
+		for _, kind := range []string{"stateful", "stateless", "statefulnoid"} {
 			for _, j := range []bool{false, true} {
 				for _, st := range []bool{false, true} {
 					cells = append(cells, ngCell{req: req, kind: kind, subset: "none", json: j, store: st})
@@ -296,73 +299,33 @@ func ngParse(toks []string) (ngCell, bool) {
 func TestVerifNegotiate(t *testing.T) {
 	out := verifOpen(t)
 	defer out.close()
-	runFile := func(path, cs string) {
-		b, err := os.ReadFile(path)
-		if err != nil {
-			t.Fatal(err)
-		}
-		for _, ln := range strings.Split(string(b), "\n") {
-			ln = strings.TrimSpace(ln)
-			if ln == "" || strings.HasPrefix(ln, "#") || ln == "reset" {
-				continue
-			}
-			c, ok := ngParse(strings.Fields(ln))
-			out.line(cs, "reset", "ok", "reset")
-			if !ok {
-				out.line(cs, ln, "bad-op", "corpus")
-				continue
-			}
-			obs, tags := ngRun(c)
-			out.line(cs, c.op(), obs, append(tags, "corpus")...)
-		}
-	}
-	if p := os.Getenv("VERIF_REPLAY"); p != "" {
-		runFile(p, "replay")
+	if ngReplayOrCorpus(t, out) {
 		return
 	}
-	if p := os.Getenv("VERIF_CORPUS"); p != "" {
-		ents, _ := os.ReadDir(p)
-		var names []string
-		for _, e := range ents {
-			if strings.HasSuffix(e.Name(), ".ops") {
-				names = append(names, e.Name())
-			}
-		}
-		sort.Strings(names)
-		for _, n := range names {
-			runFile(p+"/"+n, "corpus-"+strings.TrimSuffix(n, ".ops"))
-		}
+	// the matrix (SDK server cells and foreign-peer cells) is finite and enumerated completely; the
+	// seed only permutes the order
+	var ops []string
+	for _, c := range ngCells() {
+		ops = append(ops, c.op())
 	}
-	cells := ngCells()
-	// the matrix is finite and enumerated completely; the seed only permutes the order
+	for _, c := range ngForeignCells() {
+		ops = append(ops, c.op())
+	}
 	rng := verifRng(7)
-	rng.Shuffle(len(cells), func(i, j int) { cells[i], cells[j] = cells[j], cells[i] })
-	type res struct {
-		obs  string
-		tags []string
-	}
-	results := make([]res, len(cells))
-	var wg sync.WaitGroup
-	sem := make(chan struct{}, 8)
-	for i := range cells {
-		wg.Add(1)
-		sem <- struct{}{}
-		go func(i int) {
-			defer wg.Done()
-			defer func() { <-sem }()
-			o, tg := ngRun(cells[i])
-			results[i] = res{o, tg}
-		}(i)
-	}
-	wg.Wait()
-	for i, c := range cells {
+	rng.Shuffle(len(ops), func(i, j int) { ops[i], ops[j] = ops[j], ops[i] })
+	results := make([]ngRec, len(ops))
+	ngParallel(len(ops), func(i int) { results[i] = ngRunOps([]string{ops[i]})[0] })
+	for i, r := range results {
 		cs := fmt.Sprintf("c%d", i)
 		out.line(cs, "reset", "ok", "reset")
-		tags := append(results[i].tags, "kind-"+c.kind, "req-"+ngReqClass(c.req))
-		if c.subset != "none" {
-			tags = append(tags, "subset")
+		tags := r.tags
+		if c, ok := ngParse(strings.Fields(r.op)); ok {
+			tags = append(tags, "kind-"+c.kind, "req-"+ngReqClass(c.req))
+			if c.subset != "none" {
+				tags = append(tags, "subset")
+			}
 		}
-		out.line(cs, c.op(), results[i].obs, tags...)
+		out.line(cs, r.op, r.obs, tags...)
 	}
 }
 
